@@ -46,11 +46,18 @@ package parse
 //@ modifies p.input
 //@ ensures len(p.input) <= len(old(p.input))
 
+// C07: the recursion parseValue -> parseArray / parseObj -> parseValue is bounded by a constant: p.depth counts the
+// arrays and objects that enclose the value being parsed, stays within [0, maxNesting] and is restored on return
+// (a flag value or an expanded environment variable of a few megabytes of '[' must not exhaust the stack, which is
+// a fatal error in Go)
 //@ func (*flagParser).parseValue
 //@ props C07
-//@ requires p != nil
-//@ modifies p.input
+//@ requires p != nil && 0 <= p.depth && p.depth <= 10000
+//@ modifies p.input, p.depth
+//@ at-call (*flagParser).parseArray requires 1 <= p.depth && p.depth <= 10000
+//@ at-call (*flagParser).parseObj requires 1 <= p.depth && p.depth <= 10000
 //@ ensures len(p.input) <= len(old(p.input))
+//@ ensures [depth_restored] p.depth == old(p.depth)
 
 //@ func (*flagParser).parseKey
 //@ props C07
@@ -60,19 +67,21 @@ package parse
 
 //@ func (*flagParser).parseArray
 //@ props C07
-//@ requires p != nil
+//@ requires p != nil && 0 <= p.depth && p.depth <= 10000
 //@ requires len(p.input) > 0
-//@ modifies p.input
+//@ modifies p.input, p.depth
 //@ ensures len(p.input) <= len(old(p.input))
-//@ loop 1 invariant len(p.input) <= len(old(p.input))
+//@ ensures [depth_restored] p.depth == old(p.depth)
+//@ loop 1 invariant len(p.input) <= len(old(p.input)) && p.depth == old(p.depth)
 
 //@ func (*flagParser).parseObj
 //@ props C07
-//@ requires p != nil
+//@ requires p != nil && 0 <= p.depth && p.depth <= 10000
 //@ requires len(p.input) > 0
-//@ modifies p.input
+//@ modifies p.input, p.depth
 //@ ensures len(p.input) <= len(old(p.input))
-//@ loop 1 invariant len(p.input) <= len(old(p.input))
+//@ ensures [depth_restored] p.depth == old(p.depth)
+//@ loop 1 invariant len(p.input) <= len(old(p.input)) && p.depth == old(p.depth)
 
 //@ func parseBoolValue
 //@ trusted
